@@ -254,15 +254,61 @@ func websocketFactsLocking(p *pkgInfo, w *bytes.Buffer) error {
 		strings.Join(names, ", "), boolLean(allLatch))
 	// flushFrame: exactly one c.write call, with ≥ 2 buffer arguments; Conn.write's conn.Write is inside `for … range bufs`
 	nWrite, nBufs := 0, 0
-	ast.Inspect(flush.Body, func(n ast.Node) bool {
-		if ce, ok := n.(*ast.CallExpr); ok {
-			if se, ok := ce.Fun.(*ast.SelectorExpr); ok && se.Sel.Name == "write" && selPath(se.X) != "" {
-				nWrite++
-				nBufs = len(ce.Args) - 2
+	// flushFrame and the methods of Conn / messageWriter it calls (the write may sit in a helper such as
+	// writeExclusive): all their bodies are searched for the call c.write(frameType, deadline, buf0, buf1…)
+	fbodies := []*ast.BlockStmt{flush.Body}
+	fseen := map[string]bool{"flushFrame": true, "write": true}
+	for i := 0; i < len(fbodies) && i < 8; i++ {
+		ast.Inspect(fbodies[i], func(n ast.Node) bool {
+			if ce, ok := n.(*ast.CallExpr); ok {
+				if se, ok := ce.Fun.(*ast.SelectorExpr); ok && !fseen[se.Sel.Name] {
+					for _, recv := range []string{"Conn", "messageWriter"} {
+						if callee := p.funcDecl(recv, se.Sel.Name); callee != nil {
+							fseen[se.Sel.Name] = true
+							fbodies = append(fbodies, callee.Body)
+						}
+					}
+				}
 			}
-		}
-		return true
-	})
+			return true
+		})
+	}
+	for _, fb := range fbodies {
+		ast.Inspect(fb, func(n ast.Node) bool {
+			if ce, ok := n.(*ast.CallExpr); ok {
+				if se, ok := ce.Fun.(*ast.SelectorExpr); ok && se.Sel.Name == "write" && selPath(se.X) != "" {
+					nWrite++
+					nBufs = len(ce.Args) - 2
+					if ce.Ellipsis.IsValid() {
+						// c.write(t, deadline, bufs...) inside a variadic helper: as many buffers as flushFrame hands to it
+						nBufs = 0
+						for _, recv := range []string{"Conn", "messageWriter"} {
+							for name := range fseen {
+								callee := p.funcDecl(recv, name)
+								if callee == nil || callee.Body != fb || callee.Type.Params == nil {
+									continue
+								}
+								fixed := 0
+								for _, fl := range callee.Type.Params.List {
+									fixed += len(fl.Names)
+								}
+								fixed-- // the variadic parameter itself
+								ast.Inspect(flush.Body, func(m ast.Node) bool {
+									if c2, ok := m.(*ast.CallExpr); ok {
+										if s2, ok := c2.Fun.(*ast.SelectorExpr); ok && s2.Sel.Name == name && len(c2.Args)-fixed > nBufs {
+											nBufs = len(c2.Args) - fixed
+										}
+									}
+									return true
+								})
+							}
+						}
+					}
+				}
+			}
+			return true
+		})
+	}
 	oneHold := nWrite == 1 && nBufs >= 2
 	wfd := p.funcDecl("Conn", "write")
 	variadic := ""
